@@ -27,6 +27,7 @@ type VC struct {
 	tags map[string]int
 	preludeLen int
 	axLines map[int]axLine
+	na0     Term
 }
 
 func newVC(eng *Engine) *VC {
@@ -59,7 +60,69 @@ func (vc *VC) region(st *State, name string, nidx int, leaf string) Term {
 		panic(fmt.Sprintf("region %s used with sorts (%d,%s) and (%d,%s)", name, ri.nidx, ri.leaf, nidx, leaf))
 	}
 	t := vc.sc.declare(name+"@0", arraySort(nidx, leaf))
+	// heap well-formedness at function entry: every reference stored in the
+	// pre-state heap designates an object allocated before the function started
+	if rk, isRef := vc.eng.regionRef[name]; isRef && vc.na0 != "" && !vc.subs["wf:"+name] {
+		vc.subs["wf:"+name] = true
+		// the cell term and its binders, by region shape
+		binders, cell := "(r Int)", fmt.Sprintf("(select %s r)", t)
+		if i := strings.Index(rk, "|"); i > 0 && strings.HasPrefix(rk, "map:") {
+			binders, cell = fmt.Sprintf("(r Int) (k %s)", rk[4:i]), fmt.Sprintf("(select (select %s r) k)", t)
+			rk = rk[i+1:]
+		} else if nidx == 2 {
+			binders, cell = "(r Int) (i Int)", fmt.Sprintf("(select (select %s r) i)", t)
+		} else if nidx == 0 {
+			binders, cell = "", t
+		}
+		var fact Term
+		switch {
+		case rk == "ref":
+			fact = fmt.Sprintf("(< (root %s) %s)", cell, vc.na0)
+		case rk == "len":
+			fact = fmt.Sprintf("(and (<= 0 %s) (<= %s %s))", cell, cell, maxLen)
+		case strings.HasPrefix(rk, "range "):
+			f := strings.SplitN(rk[6:], "..", 2)
+			fact = fmt.Sprintf("(and (<= %s %s) (<= %s %s))", f[0], cell, cell, f[1])
+		}
+		if fact != "" {
+			if binders == "" {
+				vc.sc.assert(fact)
+			} else {
+				vc.sc.assert(fmt.Sprintf("(forall (%s) (! %s :pattern (%s)))", binders, fact, cell))
+			}
+		}
+	}
 	return t
+}
+
+// noteRegionType records, per leaf region under prefix, what every value
+// stored there satisfies by construction (a reference to an allocated object,
+// a slice length/capacity/offset, a sized integer's range) so that region()
+// can state this well-formedness for the pre-state heap. mapKey != "" marks a
+// map value region keyed by that sort.
+func (eng *Engine) noteRegionType(prefix string, T types.Type, mapKey string) {
+	mark := func(name, what string) {
+		if _, ok := eng.regionRef[name]; ok {
+			return
+		}
+		if mapKey != "" {
+			what = "map:" + mapKey + "|" + what
+		}
+		eng.regionRef[name] = what
+	}
+	switch u := T.Underlying().(type) {
+	case *types.Pointer, *types.Map, *types.Chan:
+		mark(prefix, "ref")
+	case *types.Slice:
+		mark(prefix+".base", "ref")
+		mark(prefix+".off", "len")
+		mark(prefix+".len", "len")
+		mark(prefix+".cap", "len")
+	case *types.Basic:
+		if lo, hi, ok := intRange(u); ok {
+			mark(prefix, "range "+lo+".."+hi)
+		}
+	}
 }
 
 func (vc *VC) setRegion(st *State, name string, nidx int, leaf string, t Term) {
@@ -126,6 +189,7 @@ func (vc *VC) ptrFromRef(ref Term, PT types.Type) Val {
 	pt, _ := PT.Underlying().(*types.Pointer)
 	v := Val{K: KPtr, T: PT, S: ref}
 	if pt != nil && !isObjectType(pt.Elem()) {
+		vc.eng.noteRegionType("cell<"+leafTypeName(pt.Elem())+">", pt.Elem(), "")
 		v.Loc = &Loc{Prefix: "cell<" + leafTypeName(pt.Elem()) + ">", Idx: []Term{ref}}
 	}
 	return v
@@ -232,6 +296,7 @@ func (vc *VC) fieldPtr(ref Term, ST types.Type, i int) Val {
 	if isObjectType(f.Type()) {
 		return Val{K: KPtr, T: pt, S: vc.subRef(ref, owner, f.Name())}
 	}
+	vc.eng.noteRegionType(owner+"."+f.Name(), f.Type(), "")
 	return Val{K: KPtr, T: pt, Loc: &Loc{Prefix: owner + "." + f.Name(), Idx: []Term{ref}}}
 }
 
@@ -241,6 +306,7 @@ func (vc *VC) elemPtr(base, idx Term, ET types.Type) Val {
 	if isObjectType(ET) {
 		return Val{K: KPtr, T: pt, S: app("selem", base, idx)}
 	}
+	vc.eng.noteRegionType("elem<"+leafTypeName(ET)+">", ET, "")
 	return Val{K: KPtr, T: pt, Loc: &Loc{Prefix: "elem<" + leafTypeName(ET) + ">", Idx: []Term{base, idx}}}
 }
 
